@@ -389,17 +389,17 @@ def discover_programs(ctx):
         repo = sorted(ctx.rng.sample(repo, 8), key=lambda t: t[1])
     progs += repo
     try:
-        from gen import progs as genprogs          # optional shared program generator
-        mk = getattr(genprogs, "wa_programs", None)
-        if callable(mk):
-            d = os.path.join(ctx.tmp, "genprogs")
-            os.makedirs(d, exist_ok=True)
-            for k, (nm, src) in enumerate(mk(ctx.rng, 10 if ctx.tier == "quick" else 100)):
-                fn = os.path.join(d, "g%03d.wa" % k)
-                open(fn, "w").write(src)
-                progs.append(("generated", fn, "g%03d.wa" % k))
-    except Exception as e:                          # noqa: the generator is not part of this check
-        ctx.notes.append("gen/progs.py not used: %s" % str(e)[:100])
+        from gen import progs as genprogs          # shared type-directed program generator (WaGo text, owner: gen/progs.py)
+        d = os.path.join(ctx.tmp, "genprogs")
+        os.makedirs(d, exist_ok=True)
+        for k in range(4 if ctx.tier == "quick" else 40):
+            size = ("small", "medium", "medium", "large")[k % 4] if ctx.tier != "quick" else ("small", "medium")[k % 2]
+            src = genprogs.gen_program(ctx.rng, size=size, stream="safe").render_go()
+            fn = os.path.join(d, "g%03d.wa.go" % k)
+            open(fn, "w").write(src)
+            progs.append(("generated", fn, "g%03d.wa.go" % k))
+    except Exception as e:                          # the generator is not part of this check: its absence only narrows the stream
+        ctx.notes.append("gen/progs.py not used: %s" % str(e)[:200])
     return progs
 
 
